@@ -154,3 +154,24 @@ contract(T1 + 'Type1Tag.NDEF._read_ndef_data', 'C08',
                  decreases='stop - len(self._data_from_tag)',
                  havoc={'self._data_from_tag': Bytes(0, None, mutable=True),
                         'self._data_in_cache': Bytes(0, None, mutable=True), 'self._tag.commands': Int(0, None)})})
+
+# the wrappers the application actually calls: tag.ndef and ndef.has_changed put nothing between the type specific
+# reader and the application - given a reader that returns None or the message and raises nothing (the contracts
+# above, one per tag type) they return None resp. a bool, and the NDEF object only survives with data
+for _cls, _rd in (('nfc.tag.tt3:Type3Tag', 'nfc.tag.tt3:Type3Tag.NDEF._read_ndef_data'),):
+    contract(_rd, 'C08', dict(self=Any()), name='C08/reader.summary', assumed=True,
+             note='proved per tag type above: None or the message, nothing raised', raises={},
+             returns=Opt(Bytes(0, None, mutable=True)))
+    contract('nfc.tag:Tag.NDEF.has_changed', 'C08',
+             dict(self=Obj('nfc.tag.tt3:Type3Tag.NDEF', _partial=False, _data=Opt(Bytes(0, None, mutable=True)),
+                           _capacity=Int(0, None), _readable=Bool(), _writeable=Bool(),
+                           _tag=Obj('nfc.tag.tt3:Type3Tag', _ndef=Ref('self')))),
+             name='C08/ndef.has_changed', call='getter', use=['C08/reader.summary'],
+             ensures=[('post.bool', 'result == True or result == False'),
+                      ('post.dropped', 'implies(self._data is None, self._tag._ndef is None)')],
+             raises={})
+    contract('nfc.tag:Tag.ndef', 'C08',
+             dict(self=Obj('nfc.tag.tt3:Type3Tag', _ndef=None)),
+             name='C08/tag.ndef', call='getter', use=['C08/reader.summary'],
+             ensures=[('post.none-or-data', 'result is None or result._data is not None')],
+             raises={})
